@@ -425,4 +425,28 @@ PROPS = {
             sub("kcalc_colcok_cache", "c04_fastpaths", 2000, 80000, qw=1, tw=2),
             sub("kcalc_xvalid", "c04_fastpaths", 3000, 150000, qw=1, tw=2),
         ]),
+    "C14": dict(
+        level="exploration",
+        cap_s=dict(quick=600, thorough=3000),
+        rule=("statistical: each case = simulator (turning bands on grid/points, FFT, spectral, SPDE Cholesky/Chebyshev, Cholesky sampling) x rapidcheck-generated "
+              "model (1-2 structures valid for the simulator, anisotropy ratio >= 3 with rotation, 1-2 variables with a correlated sill matrix) x seed; R = 1000-4000 "
+              "realisations at probe nodes and probe pairs (along each anisotropy axis at ~0.3 and ~0.7 of the range); ensemble mean, variance, cross-variable and "
+              "lag (cross-)covariances - each one and their averages over translated copies - must lie within 6 sigma_MC + b of the model values (sigma_MC from the "
+              "Gaussian fourth-moment identity; b = 1 % turning bands, 3 % FFT, 0 spectral, 10 % SPDE, 0 Cholesky); random generators: N = 1e5 draws in the support, "
+              "first four central moments within ~1e-6-level thresholds, KS distance below the DKW bound, both tails reached; non-trivial = anisotropic or "
+              "multivariate or >= 2 structures (every law case is non-trivial); distinct = hash of (simulator, model parameters, support, seed)"),
+        assumptions=["ranges are practical ranges; angles/axes as DESIGN section 3 (cross-checked against Model::eval in every case)",
+                     "model means are asserted for simtub only; the other simulators are compared with a zero mean",
+                     "preconditions of the allowances: FFT field >= 3 ranges, SPDE mesh <= range/8 with border >= 1 range, spectral >= 50 components, turning bands >= 30 bands",
+                     "simfft is called with nbsimu = 1; law_gamma(alpha, beta): beta accepted as a scale or as a rate",
+                     "false-alarm level: 6 sigma over ~1e2 statistics per case (< 1e-6 per case); validated on 60 clean runs x 10 seeds on the final harness",
+                     "this detects gross second-order errors (factors, axes, sills), not subtle distributional defects"],
+        subs=[
+            sub("tb", "c14_simustat", 6, 120, qsize=20, qw=6, tw=12),
+            sub("fft", "c14_simustat", 3, 48, qsize=20, qw=3, tw=12),
+            sub("spectral", "c14_simustat", 6, 200, qsize=20, qw=3, tw=8),
+            sub("spde", "c14_simustat", 3, 60, qsize=20, qw=3, tw=12),
+            sub("chol", "c14_simustat", 200, 3000, qsize=20, qw=1, tw=2),
+            sub("law", "c14_simustat", 200, 4000, qsize=20, qw=2, tw=4),
+        ]),
 }
